@@ -19,7 +19,8 @@ def main(argv=None):
     try:
         sys.path.insert(0, core.REPO)
         ok_gen = mv.gen(ctx)
-        ok_build = ok_gen and mv.build(ctx, proofs=not a.no_proofs)
+        ok_vo = ok_gen and mv.build(ctx, proofs=False)          # generated code + models: needed by the validation
+        ok_build = ok_vo and (a.no_proofs or mv.build(ctx, proofs=True))
         closed = axioms = 0
         if ok_build and not a.no_proofs:
             # Print Assumptions of the four proof files (re-run them: cheap once their dependencies are built)
@@ -30,11 +31,12 @@ def main(argv=None):
                     ctx.proof_broken.append((v, out[-800:]))
                 closed += len(re.findall(r'Closed under the global context', out))
                 axioms += len(re.findall(r'^Axioms:', out, re.M))
-        summary = mv.validate(ctx, do_build=False) if ok_build else {'cases': 0, 'disagreements': 0, 'skipped': 'gen/build failed'}
+        # the validation also runs when a proof broke: it is the search for a concrete input (spec vs implementation)
+        summary = mv.validate(ctx, do_build=False) if ok_vo else {'cases': 0, 'disagreements': 0, 'skipped': 'gen/build failed'}
         bad = bool(ctx.proof_broken or ctx.corr_broken or axioms)
         print('T-marshal tier=%s seed=%d gen=%s proofs=%s closed_theorems=%d axioms=%d validation_cases=%d disagreements=%d wall=%.1fs -> %s'
               % (a.tier, a.seed, 'ok' if ok_gen else 'FAILED', ('skipped' if (a.no_proofs and ok_build) else 'ok' if (ok_build and not ctx.proof_broken) else 'BROKEN'),
-                 closed, axioms, summary.get('cases', 0), summary.get('disagreements', 0), time.time() - t0, 'FAIL' if bad else 'ok'))
+                 closed, axioms, summary.get('cases', 0), max(summary.get('disagreements', 0), len(ctx.corr_broken)), time.time() - t0, 'FAIL' if bad else 'ok'))
         for x in ctx.proof_broken[:3]:
             print('  broken: %s: %s' % (x[0], x[1][:400].replace('\n', ' | ')))
         for c in ctx.corr_broken[:5]:
